@@ -148,6 +148,12 @@ class projectQEngine(quantumEngine):
         self.apply_onequbit_gate(pQ.ops.H, qubitNum)
         self.apply_onequbit_gate(pQ.ops.Z, qubitNum)
 
+    def apply_S(self, qubitNum):
+        """
+        Applies a S (phase) gate to the qubits with number qubitNum.
+        """
+        self.apply_onequbit_gate(pQ.ops.S, qubitNum)
+
     def apply_X(self, qubitNum):
         """
         Applies a X gate to the qubits with number qubitNum.
